@@ -113,4 +113,45 @@ example : edMulBase 1 = edBase := by decide +kernel
 example : edMulBase 2 = edAdd edBase edBase := by decide +kernel
 example : edMulBase (edL + 1) = edBase := by decide +kernel
 
+/-! ### 5. the ed25519 key classes: the public key of a private key is accepted as it is -/
+
+/-- an encoded on-curve point, with the library's `0x00` prefix, is accepted by the prefixed public-key
+classes (ed25519, ed25519-blake2b, Khovratovich–Law) and is its own canonical form -/
+theorem prefixed_pub_canonical (c : CurveT) (hc : c = .ed25519 ∨ c = .ed25519Blake2b ∨ c = .ed25519Kholaw)
+    {P : EdPoint} (hP : edOnCurve P = true) :
+    pubFromBytes c (0 :: edEncode P) = some (0 :: edEncode P) := by
+  have hlen : (edEncode P).length = 32 := edEncode_length P
+  have hstrip : edStripPrefix (0 :: edEncode P) = edEncode P := by
+    unfold edStripPrefix; simp [hlen]
+  have hon := edBytesOnCurve_edEncode hP
+  rcases hc with rfl | rfl | rfl <;>
+    simp [pubFromBytes, hstrip, hon, hlen]
+
+/-- the Monero flavour carries no prefix -/
+theorem monero_pub_canonical {P : EdPoint} (hP : edOnCurve P = true) :
+    pubFromBytes .ed25519Monero (edEncode P) = some (edEncode P) := by
+  have hlen : (edEncode P).length = 32 := edEncode_length P
+  have hstrip : edStripPrefix (edEncode P) = edEncode P := by
+    unfold edStripPrefix; simp [hlen]
+  have hon := edBytesOnCurve_edEncode hP
+  simp [pubFromBytes, hstrip, hon, hlen]
+
+/-- **every ed25519 / ed25519-blake2b private key has a public key, it is `clamp(H(k))·B` encoded, and the
+public-key class accepts it unchanged** -/
+theorem ed25519_pub_of_priv (k : Bytes) :
+    ∃ P, pubOfPriv .ed25519 k = some P ∧ pubFromBytes .ed25519 P = some P ∧
+      P = 0 :: edEncode (edMulBase (edClamp (sha512 k))) :=
+  ⟨_, rfl, prefixed_pub_canonical .ed25519 (Or.inl rfl) (edOnCurve_edMulBase _), rfl⟩
+
+theorem ed25519Blake2b_pub_of_priv (k : Bytes) :
+    ∃ P, pubOfPriv .ed25519Blake2b k = some P ∧ pubFromBytes .ed25519Blake2b P = some P ∧
+      P = 0 :: edEncode (edMulBase (edClamp (blake2b512 k))) :=
+  ⟨_, rfl, prefixed_pub_canonical .ed25519Blake2b (Or.inr (Or.inl rfl)) (edOnCurve_edMulBase _), rfl⟩
+
+/-- a clamped scalar is never a multiple of `L` (it lies in `[2^254, 2^255)` and is a multiple of 8 … the
+relevant fact here: it is below `8·L` and not `0`), so the public point is never the identity — stated
+through the order theorem: the identity appears exactly at multiples of `L` -/
+theorem clamped_pub_identity_iff (h : Bytes) :
+    edMulBase (edClamp h) = edIdentity ↔ edL ∣ edClamp h := mulBase_identity_iff _
+
 end BipVerif.Props.C12Ed
